@@ -383,6 +383,13 @@ class Level2:
             if fresh:
                 self.ev(e.generators[0].iter, depth + 1)  # the indices must be drawn over the listing (raises otherwise)
                 return (0, getattr(self, "pi_key", 0) ^ fl0)
+            # bits freshly extracted from a drawn amplitude index: tuple((index >> E(q)) & 1 for q in range(n)). Qubit 0 is the most
+            # significant bit of an amplitude index, so position q must read bit n-1-q (E decreasing in q); E increasing in q lists
+            # the least significant bit first, i.e. carries one reversal
+            dec = _bit_decode_direction(el0, t)
+            if dec is not None:
+                self.ev(e.generators[0].iter, depth + 1)
+                return (0, getattr(self, "pi_key", 0) ^ fl0 ^ dec)
             indexed = any(isinstance(x, ast.Subscript) and not isinstance(x.slice, ast.Slice) and norm(x.slice) == t for x in ast.walk(e.elt))
             c, b = (0, 0) if indexed else self.ev(e.generators[0].iter, depth + 1)
             el = e.elt
@@ -413,6 +420,46 @@ class Level2:
                 return (c, b ^ fl)
             raise Und(f"unrecognised element {short(e.elt, 60)}")
         raise Und(f"unrecognised expression {short(e, 60)}")
+
+
+def _bit_decode_direction(el: ast.AST, index_name: str) -> Optional[int]:
+    """0 for tuple((i >> (n-1-q)) & 1 for q in range(n)) (most significant bit first), 1 for tuple((i >> q) & 1 for q in range(n)),
+    None when `el` is not a bit-by-bit decoding of `index_name`. Also `(i // 2**E) % 2`."""
+    if isinstance(el, ast.Call) and dotted(el.func) in ("tuple", "list") and len(el.args) == 1:
+        el = el.args[0]
+    if not isinstance(el, (ast.GeneratorExp, ast.ListComp)) or len(el.generators) != 1 or el.generators[0].ifs:
+        return None
+    g = el.generators[0]
+    if not (isinstance(g.iter, ast.Call) and dotted(g.iter.func) in ("range", "np.arange") and isinstance(g.target, ast.Name)):
+        return None
+    q = g.target.id
+    rev_range = len(g.iter.args) == 3 and norm(g.iter.args[2]) in ("-1", "(-1)")
+    x = el.elt
+    if isinstance(x, ast.Call) and dotted(x.func) == "int" and len(x.args) == 1:
+        x = x.args[0]
+    E = None
+    if isinstance(x, ast.BinOp) and isinstance(x.op, ast.BitAnd) and norm(x.right) == "1" and isinstance(x.left, ast.BinOp) and isinstance(x.left.op, ast.RShift) and norm(x.left.left) == index_name:
+        E = x.left.right
+    elif isinstance(x, ast.BinOp) and isinstance(x.op, ast.Mod) and norm(x.right) == "2" and isinstance(x.left, ast.BinOp) and isinstance(x.left.op, ast.FloorDiv) and norm(x.left.left) == index_name and isinstance(x.left.right, ast.BinOp) and isinstance(x.left.right.op, ast.Pow) and norm(x.left.right.left) == "2":
+        E = x.left.right.right
+    if E is None:
+        return None
+    import copy as _c
+
+    class _Op(ast.NodeTransformer):
+        def visit_Call(self, node):
+            return ast.Name(id="CALL_" + "".join(ch for ch in norm(node) if ch.isalnum()), ctx=ast.Load())
+
+        def visit_Attribute(self, node):
+            return ast.Name(id="ATTR_" + "".join(ch for ch in norm(node) if ch.isalnum()), ctx=ast.Load())
+
+    pe = poly(_Op().visit(_c.deepcopy(E)))
+    if pe is None:
+        return None
+    co = pe.get(((q, 1),))
+    if co not in (1, -1):
+        return None
+    return (1 if co == 1 else 0) ^ (1 if rev_range else 0)
 
 
 def check_sampling(ctx, pi_key: int, pi_b2t: int):
